@@ -358,7 +358,7 @@ func (p *Prog) StaticCallersOf(fn *ssa.Function) []callSite {
 				for _, in := range b.Instrs {
 					if ci, ok := in.(ssa.CallInstruction); ok {
 						if c := ci.Common().StaticCallee(); c != nil {
-							p.callers[c] = append(p.callers[c], callSite{f, ci})
+							p.callers[c] = append(p.callers[c], callSite{Caller: f, Instr: ci})
 						}
 					}
 				}
